@@ -200,6 +200,11 @@ class Doc:
             lvl = int(sym[1])
             self.rubrics.append((f"M{i}", lvl))
             self.lines += ["::::{tip}", ":::{note}", "> " + "#" * lvl + f" M{i}", ":::", "::::", ""]
+        elif kind in "TS":  # topic / sidebar: Structural nodes that are not sections
+            lvl = int(sym[1])
+            self.rubrics.append((f"{kind}{i}", lvl))
+            name = "topic" if kind == "T" else "sidebar"
+            self.lines += ["```{%s} Title %d" % (name, i), "#" * lvl + f" {kind}{i}", "", "body text", "```", ""]
         elif kind == "I":  # include with heading offset
             off = int(sym[1])
             start = self.lineno()
@@ -256,7 +261,7 @@ class LevelSystem(_Base):
                    nontrivial=len(lv) >= 2, violations=viol[:3], canon=(tuple(sorted(r._level_to_section)), lv[-1] if lv else 0))
 
 
-MIXED = ["H1", "H2", "H3", "H4", "H6", "P", "Q1", "Q3", "L1", "L2", "N1", "N3", "M2", "I0", "I1", "I2"]
+MIXED = ["H1", "H2", "H3", "H4", "H6", "P", "Q1", "Q3", "L1", "L2", "N1", "N3", "M2", "T2", "S1", "I0", "I1", "I2"]
 
 
 class MixedSystem(_Base):
@@ -286,15 +291,15 @@ class MixedSystem(_Base):
         d, doc, stream, r = self.execute(seq)
         viol = compare(d, doc, stream, r)
         # the surrounding structure is unaffected by nested headings: same sections as the sequence without them
-        if any(s[0] in "QLNM" for s in seq):
-            d2, doc2, stream2, r2 = self.execute([s for s in seq if s[0] not in "QLNM"])
+        if any(s[0] in "QLNMTS" for s in seq):
+            d2, doc2, stream2, r2 = self.execute([s for s in seq if s[0] not in "QLNMTS"])
             a = [(t, p) for t, p, _ in observe(doc)[2]]
             b = [(t, p) for t, p, _ in observe(doc2)[2]]
             # titles carry the position index, compare shapes only
             if [p for _, p in a] != [p for _, p in b]:
                 viol.append(violation("nested-affects-structure", {"clause": "nested-affects-structure"},
                                       f"section structure {a} differs from {b} obtained without the nested headings", text=d.text()))
-        nt = any(s[0] in "QLNMI" for s in seq) and any(s[0] == "H" for s in seq)
+        nt = any(s[0] in "QLNMTSI" for s in seq) and any(s[0] == "H" for s in seq)
         return Obs(digest=([(t, p) for t, p, _ in observe(doc)[2]], stream.count("[myst.header]"), d.rubrics),
                    nontrivial=nt, violations=viol[:3], canon=(tuple(sorted(r._level_to_section)), seq[-1] if seq else ""))
 
@@ -343,6 +348,81 @@ class OffsetSystem(_Base):
         return Obs(digest=([(t, p) for t, p, _ in observe(doc)[2]], stream.count("[myst.header]"), d.rubrics), violations=viol[:3])
 
 
+class ContainerSystem(_Base):
+    """programs = every content directive class of the docutils registry and the in-process Sphinx registry."""
+
+    name = "containers"
+    description = ("every registered directive class that takes content (docutils + Sphinx registries, `only` excluded) with a heading of level 1/2/3 "
+                   "in its body, between two top-level headings: no section may appear below a non-section and the outer nesting is unchanged")
+
+    def prepare(self, ctx):
+        super().prepare(ctx)
+        from .c08 import directive_classes, sphinx_classes
+
+        allc = directive_classes()
+        allc.update(sphinx_classes(ctx.scratch))
+        self.classes = {}
+        seen = set()
+        for key, cls in sorted(allc.items()):
+            name = key.split(":", 1)[1]
+            if not cls.has_content or id(cls) in seen or name in ("only", "include", "eval-rst"):
+                continue
+            if key.startswith("sx:") and ":" in name:
+                continue  # domain directives need a Sphinx environment; the docutils-level ones are enough for the renderer path
+            seen.add(id(cls))
+            self.classes[name] = cls
+        self.names = sorted(self.classes)
+
+    def bounds(self):
+        return {"classes": len(getattr(self, "names", [])), "levels": 3}
+
+    def rule(self):
+        return "one case = (directive name, nested heading level); non-trivial = the directive's output contains the nested heading text"
+
+    def cases(self):
+        for n in self.names:
+            for lvl in (1, 2, 3):
+                yield [n, lvl]
+
+    def run(self, case):
+        name, lvl = case
+        cls = self.classes[name]
+        args = " ".join(["x"] * cls.required_arguments)
+        text = f"# A\n\nPA\n\n## B\n\n````{{{name}}} {args}\n" + "#" * lvl + " INNER\n\nbody\n````\n\nPB\n\n## C\n\nPC\n"
+        try:
+            doc, stream, r = render(text, str(self.dir / "index.md"))
+        except Exception as exc:  # totality is C01's clause; a crash here is reported but classified separately
+            return Obs(digest=("exc", type(exc).__name__), nontrivial=False, stats={"raised": 1})
+        viol = []
+        secs, index, obs = observe(doc)
+        shape = [(t, p) for t, p, _ in obs if t in ("A", "B", "C")]
+        if shape != [("A", -1), ("B", 0), ("C", 0)]:
+            viol.append(violation("nested-affects-structure", {"clause": "nested-affects-structure", "directive": name},
+                                  f"outer sections {[(t, p) for t, p, _ in obs]} (expected A, B under A, C under A) with a heading inside {{{name}}}",
+                                  text=text, doctree=doc.pformat()[:2000]))
+        for t, p, pk in obs:
+            if t == "INNER":
+                viol.append(violation("section-in-container", {"clause": "section-in-container", "directive": name},
+                                      f"heading inside the body of {{{name}}} opened a section", text=text, doctree=doc.pformat()[:2000]))
+        for node in doc.findall(nodes.section):
+            anc = node.parent
+            while anc is not None and not isinstance(anc, nodes.document):
+                if not isinstance(anc, nodes.section):
+                    viol.append(violation("section-in-container", {"clause": "section-in-container", "directive": name},
+                                          f"section below a {type(anc).__name__}", text=text))
+                    break
+                anc = anc.parent
+        pb = [p for p in doc.findall(nodes.paragraph) if p.astext() == "PB"]
+        if pb and not (isinstance(pb[0].parent, nodes.section) and pb[0].parent[0].astext() == "B"):
+            viol.append(violation("nested-affects-structure", {"clause": "paragraph-after-container", "directive": name},
+                                  f"the paragraph after {{{name}}} is not under section B", text=text))
+        rub = [x for x in doc.findall(nodes.rubric) if x.astext() == "INNER"]
+        if rub and rub[0].get("level") != lvl:
+            viol.append(violation("rubric", {"clause": "rubric-level", "directive": name},
+                                  f"rubric level {rub[0].get('level')}, heading level {lvl}", text=text))
+        return Obs(digest=(name, lvl, bool(rub), shape), nontrivial="INNER" in doc.astext(), violations=viol[:3])
+
+
 class FixSystem(FixpointSystem, _Base):
     name = "fixpoint"
     description = "BFS over canonical renderer states (set of open heading levels read from _level_to_section) x {H1..H6} until no new state appears"
@@ -364,4 +444,4 @@ class FixSystem(FixpointSystem, _Base):
 
 
 def systems(tier):
-    return [LevelSystem(tier), MixedSystem(tier), OffsetSystem(tier), FixSystem(tier)]
+    return [LevelSystem(tier), MixedSystem(tier), OffsetSystem(tier), ContainerSystem(tier), FixSystem(tier)]
